@@ -117,7 +117,7 @@ pub fn dir(data: &[u8]) -> Option<crate::c07::Case> {
         files.push((b % 9, (b >> 4) % 3));
     }
     let n = files.len();
-    Some(crate::c07::Case { files, subdirs: subdirs % 3, capacity: (capsel as usize % 16 * (n + 2)) >> 4, route: route % 6, own_existing: if own & 1 == 1 && n > 0 { Some((own >> 1) % n as u8) } else { None } })
+    Some(crate::c07::Case { files, subdirs: subdirs % 3, capacity: (capsel as usize % 16 * (n + 2)) >> 4, route: route % 6, own_existing: if own & 1 == 1 && n > 0 { Some((own >> 1) % n as u8) } else { None }, symlink: subdirs & 0x80 != 0 })
 }
 
 pub fn run_dir(data: &[u8]) -> Result<(), String> {
